@@ -2,6 +2,7 @@ import Driver.Util
 import Driver.Chunker
 import Driver.Hashes
 import Driver.Bg4
+import Driver.Shard
 open Xet.Drv
 
 def dispatch (blob : Blob) (line : String) : String :=
@@ -11,6 +12,7 @@ def dispatch (blob : Blob) (line : String) : String :=
   | cmd :: rest =>
     if cmd == "chunker" then handleChunker blob rest
     else if cmd.startsWith "hash" || cmd.startsWith "hex." then handleHash blob cmd rest
+    else if cmd.startsWith "shard." then handleShard blob cmd rest
     else if cmd.startsWith "bg4." then handleBg4 blob cmd rest
     else "bad-op"
 
